@@ -40,6 +40,25 @@ class Addition:
         self.filters = filters or []
         self.pull = pull
 
+    def unconditional(self):
+        """every element produced by the source is added (no condition on the path to the push)"""
+        if self.filters:
+            return False
+        if self.kind == "extend":
+            return True
+        if self.kind == "for_each":
+            cb = self.site["vw"].body
+            return all(cb.dominates(self.bb, r) for r in cb.return_blocks())
+        if self.pull is None:
+            return False
+        root = self.S.root
+        b = root.body
+        psw = switches_on(root, lambda d: d[0] == "discr" and d[1][0] == "call" and d[1][3] == (b.path, self.pull))
+        if len(psw) != 1:
+            return False
+        head = opt_arms(psw[0][1])[0]
+        return self.pull not in (b.reach(head, avoid_blocks=[self.bb]) - ({head} if head != self.bb else set()))
+
     def kept_iff(self, pred, pol):
         """the element is added exactly when the condition matched by `pred` has truth value `pol`"""
         root = self.S.root
@@ -70,12 +89,46 @@ class Addition:
         return v_yes is not None and v_no is not None and self.bb in v_yes and self.pull not in v_yes and (filt_no or self.bb not in v_no)
 
 
-def additions(S, is_cont):
-    """all additions to the container(s) satisfying is_cont(term) made in the root body of S"""
+def _pipeline(S, a, site, b):
+    """peel `.map(f)` / `.filter(c)` off an iterator expression: (element term, source item, filter conditions)"""
+    val = None
+    filters = []
+    for _ in range(6):
+        if a[0] != "call" or not isinstance(a[1], str):
+            break
+        ab = core.callee_base(a[1])
+        if ab == "core::iter::Iterator::map" and len(a[2]) == 2 and a[2][1][0] == "closure" and val is None and not filters:
+            val = S.fv.closure_ret(a[2][1][1])
+            a = a[2][0]
+        elif ab == "core::iter::Iterator::map" and len(a[2]) == 2 and a[2][1][0] == "fn" and val is None and not filters:
+            # a function item as the mapper (`.map(str::to_string)`): the element is f(item)
+            val = ("call", a[2][1][1], (("item", a[2][0]),), (b.path, site["bb"]))
+            a = a[2][0]
+        elif ab == "core::iter::Iterator::filter" and len(a[2]) == 2 and a[2][1][0] == "closure":
+            cr = S.fv.closure_ret(a[2][1][1])
+            filters.append(_unfilter(pnorm(cr)) if cr is not None else ("unknown", "filter"))
+            a = a[2][0]
+        elif ab in ("core::iter::IntoIterator::into_iter",):
+            a = a[2][0]
+        else:
+            break
+    src = ("item", a)
+    val = _unfilter(pnorm(val)) if val is not None else src
+    return val, src, filters
+
+
+def additions(S, is_cont, closures=False):
+    """all additions to the container(s) satisfying is_cont(term) made in the root body of S (closures=True: also a push in
+    the closure of `it.for_each(|x| v.push(..))`, whose element is the closure's item)"""
     out = []
     b = S.root.body
     for s in S.calls:
-        if s["vw"] is not S.root or not s["args"] or not is_cont(s["args"][0]):
+        if not s["args"] or not is_cont(s["args"][0]):
+            continue
+        if s["vw"] is not S.root:
+            if closures and core.callee_base(s["key"]) == PUSH and s["vw"].via is not None and \
+                    core.callee_base(s["vw"].via[1]) == "core::iter::Iterator::for_each" and s["vw"].parent is S.root:
+                out.append(Addition(S, s, "for_each", s["args"][1], s["args"][1]))
             continue
         base = core.callee_base(s["key"])
         if base == PUSH:
@@ -97,29 +150,14 @@ def additions(S, is_cont):
                         break
             out.append(Addition(S, s, "push", val, val, filters=filters, pull=pulls[-1] if pulls else None))
         elif base == EXTEND:
-            a = s["args"][1]
-            val = None
-            filters = []
-            for _ in range(6):
-                if a[0] != "call" or not isinstance(a[1], str):
-                    break
-                ab = core.callee_base(a[1])
-                if ab == "core::iter::Iterator::map" and len(a[2]) == 2 and a[2][1][0] == "closure" and val is None and not filters:
-                    val = S.fv.closure_ret(a[2][1][1])
-                    a = a[2][0]
-                elif ab == "core::iter::Iterator::map" and len(a[2]) == 2 and a[2][1][0] == "fn" and val is None and not filters:
-                    # a function item as the mapper (`.map(str::to_string)`): the element is f(item)
-                    val = ("call", a[2][1][1], (("item", a[2][0]),), s.get("site", (b.path, s["bb"])))
-                    a = a[2][0]
-                elif ab == "core::iter::Iterator::filter" and len(a[2]) == 2 and a[2][1][0] == "closure":
-                    cr = S.fv.closure_ret(a[2][1][1])
-                    filters.append(_unfilter(pnorm(cr)) if cr is not None else ("unknown", "filter"))
-                    a = a[2][0]
-                elif ab in ("core::iter::IntoIterator::into_iter",):
-                    a = a[2][0]
-                else:
-                    break
-            src = ("item", a)
-            val = _unfilter(pnorm(val)) if val is not None else src
+            val, src, filters = _pipeline(S, s["args"][1], s, b)
             out.append(Addition(S, s, "extend", val, src, filters=filters))
+    # the container created by collecting an iterator: `let mut v: Vec<_> = it.filter(c).map(f).collect();`
+    for s in S.calls:
+        if s["vw"] is S.root and core.callee_base(s["key"]) == "core::iter::Iterator::collect" and len(s["args"]) == 1 and \
+                not s["tj"]["dest"]["proj"]:
+            dl = s["tj"]["dest"]["local"]
+            if is_cont(("var", b.local_names.get(dl, "_%d" % dl), dl)):
+                val, src, filters = _pipeline(S, s["args"][0], s, b)
+                out.append(Addition(S, s, "extend", val, src, filters=filters))
     return out
